@@ -298,6 +298,30 @@ func c01Scope() []string {
 	return out
 }
 
+// c01Slices: jq counts a negative boundary from the end first (as a double) and rounds afterwards, the start down and
+// the end up; every ordered pair of boundaries in eight slice forms.
+func c01Slices() []string {
+	bounds := []string{"null", "0", "1", "2", "-1", "-2", "0.5", "1.5", "2.5", "-0.5", "-1.5", "-2.5", "-3.2", "-7.5", "3.7", "10", "-10", "1e3", "-0.0", "4.999", "-4.999"}
+	var out []string
+	for _, s := range bounds {
+		for _, e := range bounds {
+			se := s + ":" + e
+			if s == "null" {
+				se = ":" + e
+			}
+			if e == "null" {
+				se = s + ":"
+			}
+			if s == "null" && e == "null" {
+				se = "null:null"
+			}
+			out = append(out, "[.["+se+"]?]", "try (.["+se+"] = [\"x\"]) catch \"E\"", "try del(.["+se+"]) catch \"E\"", "try (.["+se+"] |= (.[1:]?)) catch \"E\"", "[path(.["+se+"]?)]",
+				"try getpath([{start: "+s+", end: "+e+"}]) catch \"E\"", "try setpath([{start: "+s+", end: "+e+"}]; [9]) catch \"E\"", "try delpaths([[{start: "+s+", end: "+e+"}]]) catch \"E\"")
+		}
+	}
+	return out
+}
+
 // c01Sharing: value semantics under sharing - two different values are derived from one base that stays reachable
 // (bound to a variable, or the input): deriving the second must not change the first, nor the base.
 func c01Sharing() []string {
@@ -396,6 +420,15 @@ func init() {
 			// (a1) destructuring alternatives
 			for _, src := range c01Alt(!c.Quick()) {
 				for _, in := range c01AltInputs {
+					kC01.Do(c, c01Case{Src: src, Input: run.TV{V: in}})
+				}
+			}
+			// (a1f) slices with every pair of boundaries from a pool with negative and fractional numbers
+			for i, src := range c01Slices() {
+				for j, in := range []any{[]any{0, 1, 2, 3, 4}, "abcde", []any{0}, []any{}, nil, []any{0, 1, 2}} {
+					if c.Quick() && (i+j)%3 != 0 {
+						continue
+					}
 					kC01.Do(c, c01Case{Src: src, Input: run.TV{V: in}})
 				}
 			}
